@@ -451,6 +451,26 @@ def run_session(tier, acc):
         elif not (runs[0].stdout == runs[1].stdout == runs[2].stdout):
             d = next(i for i in range(N) if len(set(r.stdout[i] for r in runs)) > 1)
             acc.fail(case, 'three random_walk runs over a ruleset with tied values differ: word %d is %r' % (d + 1, [r.stdout[d] for r in runs]), 'session-reproducible')
+    # an edited ruleset (edit_rules.py removes structures and does not renormalise): the structure probabilities sum to 0.7
+    edited = dict(D.TERMINALS[1])
+    edited.update(grammar=[('A1D1', .4), ('D2', .3)], prince=D.PRINCE)
+    R.write_ruleset(os.path.join(td, 'Rules', 'e'), edited)
+    types_e, base_e = R.ref_loaded(edited, True, False)
+    lang_e = set()
+    for bp, reps_ in base_e:
+        for idx in itertools.product(*[range(len(types_e[r])) for r in reps_]):
+            lang_e.update(R.expand_pt(types_e, list(zip(reps_, idx))))
+    for mode in ('random_walk', 'honeywords'):
+        for N in (1, 5, 25):
+            r1 = S.run_guesser(td, ['-r', 'e', '-m', mode, '-n', str(N)])
+            acc.evals += 1
+            acc.nontrivial += 1
+            case = {'layer': 'session', 'mode': mode, 'N': N, 'ruleset': 'edited, structures sum to 0.7'}
+            if r1.exc:
+                acc.fail(case, '%s -n %d on the edited ruleset raised %s' % (mode, N, r1.exc.strip().splitlines()[-1]), 'session-raise')
+            elif len(r1.stdout) != N or any(w not in lang_e for w in r1.stdout):
+                acc.fail(case, '%s -n %d on a ruleset whose structures sum to 0.7 wrote %d lines, not in the language: %r' % (mode, N, len(r1.stdout), [w for w in r1.stdout if w not in lang_e][:2]),
+                         'session-language')
     # runs of walks that land on the Markov structure (no honeyword for those: the session just walks again) between the walks that give a word:
     # however long such a run is, --limit N still means N words
     for mode in ('random_walk', 'honeywords'):
